@@ -28,8 +28,20 @@ Definition rcheck (c : rcase) : bool :=
 Fixpoint nodup_fst (l : list (nat * nat)) : bool :=
   match l with [] => true | x :: r => negb (existsb (fun y => Nat.eqb (fst x) (fst y)) r) && nodup_fst r end.
 
+(* every registration that was NOT refused (ok / same) carried a name that no different instance had taken before;
+   instances are told apart by identity, never by where they live (two components may share an address) *)
+Fixpoint accepted_ok (seen : list (nat * nat)) (rs : list reg_req) (outs : list nat) : bool :=
+  match rs, outs with
+  | r :: rs', o :: outs' =>
+    if Nat.eqb o 2 then true      (* refused: SetComponents unwinds here *)
+    else negb (existsb (fun p => Nat.eqb (fst p) (reg_name r) && negb (Nat.eqb (snd p) (rq_inst r))) seen)
+         && accepted_ok ((reg_name r, rq_inst r) :: seen) rs' outs'
+  | _, _ => true
+  end.
+
 Definition roracle (c : rcase) : bool :=
   nodup_fst (rc_final c)
+  && accepted_ok [] (rc_reqs c) (rc_outs c)
   && forallb (fun p => match find (fun r => Nat.eqb (reg_name r) (fst p)) (rc_reqs c) with
                        | Some r => Nat.eqb (rq_inst r) (snd p)      (* the FIRST registrant holds the name *)
                        | None => false
